@@ -31,6 +31,7 @@ RULE = ('one evaluation = one seeded run: 4-20 values drawn from the picklable d
         'an exception and no trace of the key; non-trivial = at least one file-backed value round-tripped; distinct = SHA-256 of the case')
 RULE += ' ' + 'Value files opened unbuffered accept at most 4096 bytes per write() call (a short write, reported in the return value).'
 RULE += ' ' + 'JSONDisk runs end with values JSON cannot represent (bytes, sets, complex, dates, Decimals): rejected without a trace or read back unchanged.'
+RULE += ' ' + 'Subclass values include ones equal to True / False / 0 / 1; one seed in 97 stores text of more than 4 MiB in mixed 1- to 4-byte UTF-8 characters.'
 ASSUMPTIONS = ['this property is mostly a function of the input; the simulator contributes the stream, fault and restart dimensions, the value sweep is generative differential testing on the same runs',
                'JSONDisk is exercised with JSON-stable values only (no tuples, no byte strings, no streams)']
 PROBES = ('file_backed', 'stream_values', 'short_reads', 'rejected_values', 'restart_reads', 'oserr', 'chunk_boundary', 'shared_or_cyclic_values', 'real_file_streams', 'returned_value_mutated', 'json_rejections')
@@ -84,7 +85,9 @@ def gen_value(rng, mfs, json_ok):
         if not json_ok and rng.random() < 0.4:
             # instances of subclasses of the natively stored types, short and at the file threshold
             return rng.choice(({'sub': ['str', 'r' * rng.choice((3, mfs + 1 if mfs < 100 else 40))]}, {'sub': ['bytes', {'b': 'ab' * rng.choice((2, mfs + 1 if mfs < 100 else 40))}]},
-                               {'sub': ['int', 7]}, {'sub': ['float', {'f': '2.5'}]})), 'subclass'
+                               {'sub': ['int', 7]}, {'sub': ['float', {'f': '2.5'}]},
+                               # ... and such that compare (and hash) equal to True / False / 0 / 1
+                               {'sub': ['int', 1]}, {'sub': ['int', 0]}, {'sub': ['float', {'f': '1.0'}]}, {'sub': ['float', {'f': '0.0'}]})), 'subclass'
         return rng.choice((None, True, False)), 'const'
     if r < 0.85:
         inner = [1, 'x', None, {'f': '-0.0'}, {'f': 'nan'}]
@@ -184,6 +187,10 @@ def gen_case(seed, tier):
     if huge and not json_ok:
         steps.append({'how': 'stream', 'v': {'big': ['bytes', 2 ** 22 + rng.choice((1, 5)), 'huge']}, 'kind': 'stream', 'restart': False,
                       'stream_fail': None, 'no_short': True})
+    if seed % 97 == 1 and not json_ok:
+        # text of more than 4 MiB (the block size the library copies streams by) in multi-byte characters
+        steps.append({'how': rng.choice(('set', 'set', 'add', 'index_setitem')), 'v': {'big': ['utf8', 3 * 2 ** 20 + rng.choice((0, 1, 2)), 'hugetext']},
+                      'kind': 'txt', 'restart': rng.random() < 0.5})
     faults = []
     if rng.random() < 0.3:
         i = rng.randrange(len(steps))
